@@ -18,6 +18,7 @@ From MV Require Import Doc.TopProofs.
 From MV Require Import Doc.Api.
 From MV Require Import Doc.IdsProofs.
 From MV Require Import Doc.Final.
+From MV Require Import Doc.LabelFirst.
 From MV Require Import Gen.RenderSrc.
 From MV Require Import Doc.RenderSrcProofs.
 From MV Require Import Refs.RUtil.
@@ -161,6 +162,25 @@ Theorem C03_refids_dangle_only_reported :
   (sphinx = false -> suppressed = false -> Anchors.o_msg o = true /\ length (Anchors.o_warn o) = 1%nat).
 Proof. exact RefsCompose.anchor_refid_dangles_only_reported. Qed.
 Print Assumptions C03_refids_dangle_only_reported.
+
+(* A FOOTNOTE STARTS WITH ITS LABEL - PARTIAL: the clause at the point where render_footnote_reference creates the
+   node, for every token, state and oracle behaviour.  The definition is dropped with a warning (duplicate label), or
+   exactly one footnote node is appended and: a manually numbered one ([^1]) has its label as FIRST child - the
+   messages of its registration and the content follow it (the order seeded change C03-5 breaks); an auto-numbered
+   one ([^a]) carries auto=1 and is created only after it has been registered in document.autofootnotes, the list
+   docutils' Footnotes transform iterates to insert the label in front (Transforms.number_footnotes: insert_first).
+   NOT proved: the clause for the whole document after the transforms (it needs the relation "every auto footnote of
+   the tree is in the list" through every render method, and an invariant through number_footnotes); measured on
+   every transformed model document (measured:xform:label_first) and checked by the search on the implementation. *)
+Theorem C03_footnote_label_first_partial : forall C OR (t : tok) (ks : list rt) ctag f ns f',
+  run_f (render_footnote_reference C OR t ks) ctag f = Some (Good (ns, f')) ->
+  (exists w, ns = [w] /\ tag_of w = k_system_message) \/
+  exists o a cs, ns = [Elem o n_footnote a cs] /\
+    ((exists lbl rest, cs = lbl :: rest /\ tag_of lbl = n_label /\ assoc a_auto a = None) \/
+     (assoc a_auto a = Some [v_one] /\
+      exists f2 cs', In o (autofootnotes f2) /\ run_f (render_children ks) n_footnote f2 = Some (Good (cs', f')))).
+Proof. exact footnote_created_label_first. Qed.
+Print Assumptions C03_footnote_label_first_partial.
 
 (* non-vacuity: two headings (the second opens a sibling section), a table and a thematic break *)
 Example C03_example :
